@@ -45,9 +45,9 @@ def in_dropped_macro(node):
 
 def key_term(t, fn, T, depth=0):
     """Render a term for a semantic key: names of locals/params are replaced by their types;
-    nesting beyond 4 levels is elided (keeps keys stable under edits of distant context)."""
+    nesting beyond 2 levels is elided (keeps keys stable under edits of distant context)."""
     h = t[0]
-    if depth > 4:
+    if depth > 2:
         return "_"
     if h == "param":
         return "<%s>" % fn.locals[t[1]].s if t[1] < len(fn.locals) else "<?>"
